@@ -27,3 +27,11 @@ func (ctrler *GovCtrler) VerifPendingParams() *ctrlertypes.GovParams {
 	defer ctrler.mtx.RUnlock()
 	return ctrler.newGovParams
 }
+
+// VerifCloseLeaked closes the database that Close() leaves open, so that a
+// harness process can open many application instances one after another.
+func (ctrler *GovCtrler) VerifCloseLeaked() {
+	if ctrler.frozenLedger != nil {
+		_ = ctrler.frozenLedger.Close()
+	}
+}
